@@ -10,7 +10,7 @@
    Not proved (checked per instance by correspondence): the converse embedding and that the scaled cost vector realises
    'present value + mean of the scenario future values' (index arithmetic of the duplicated future block). *)
 From Coq Require Import QArith ZArith List Bool.
-From EAO Require Import Num LP SLP SLPProofs.
+From EAO Require Import Num LP Mapping SLP SLPProofs.
 Import ListNotations.
 Open Scope Q_scope.
 
@@ -61,6 +61,23 @@ Theorem C17_robust_le_smallest_scenario_optimum :
   Forall2 (fun v opt => forall x', G x' -> v x' <= opt) vs opts -> Forall (fun opt => t <= opt) opts.
 Proof. exact robust_le_scenario_optima. Qed.
 Print Assumptions C17_robust_le_smallest_scenario_optimum.
+
+(* the mapping of the extended problem: every row points to an existing variable (whatever the number of mapping rows per variable),
+   and the copy of a row for sample i points to the column the rows of scenario i use for that variable *)
+Theorem C17_extended_mapping_wf :
+  forall (P : lp) mp fut cs,
+  List.length fut = nvars P -> Forall (fun c : vec => List.length c = nvars P) cs ->
+  Forall (fun r => (m_var r < nvars P)%nat) mp ->
+  Forall (fun r => (m_var r < nvars (slp_lp P fut cs))%nat) (slp_map mp fut (List.length cs) (nvars P)).
+Proof. exact slp_map_wf. Qed.
+Print Assumptions C17_extended_mapping_wf.
+
+Theorem C17_extended_mapping_matches_columns :
+  forall mp fut nS n i r, (i < nS)%nat -> In r mp -> nth (m_var r) fut false = true ->
+  In (Build_mrow (scol n fut (S i) (m_var r)) (m_asset r) (m_node r) (m_type r) (m_step r) (m_factor r) (m_name r) (m_bool r))
+     (slp_map mp fut nS n).
+Proof. exact slp_map_matches_columns. Qed.
+Print Assumptions C17_extended_mapping_matches_columns.
 
 (* non-vacuity: two variables (present, future), one sample: three variables, rows doubled, future cost halved *)
 Definition exP : lp := Build_lp [1; 4] [0; 0] [2; 2] [Build_crow [(0%nat, 1); (1%nat, 1)] RU 3].
